@@ -34,9 +34,12 @@ struct Rig {
     const u64& clock;
     std::vector<Frame> log;
     std::vector<u64> irq_at;
-    explicit Rig(const u64& clk) : clock(clk) {
+    // sink == false: a port nobody listens to (no audio callback installed), like the second port of a complete Teakra;
+    // its queue, flags, horizon and empty interrupt must behave exactly the same
+    explicit Rig(const u64& clk, bool sink = true) : clock(clk) {
         dev.SetInterruptHandler([this] { irq_at.push_back(clock); });
-        dev.SetAudioCallback([this](std::array<std::int16_t, 2> s) { log.push_back({clock, (u16)s[0], (u16)s[1]}); });
+        if (sink)
+            dev.SetAudioCallback([this](std::array<std::int16_t, 2> s) { log.push_back({clock, (u16)s[0], (u16)s[1]}); });
     }
 };
 
@@ -94,7 +97,10 @@ void run_direct(Ctx& ctx, u64 c, unsigned ops_per_history) {
             period = (u32)g.range(1, 65535);
     }
     u64 now = 0;
-    Rig A(now), B(now); // A fast-forwards, B single-steps
+    const bool no_sink = g.chance(1, 5);
+    Rig A(now, !no_sink), B(now, !no_sink); // A fast-forwards, B single-steps
+    if (no_sink)
+        ctx.count("histories_without_audio_callback");
     model::Btdmp M;
     M.period = period;
     A.dev.SetTransmitPeriod((u16)period);
@@ -131,7 +137,7 @@ void run_direct(Ctx& ctx, u64 c, unsigned ops_per_history) {
         if (bad)
             return;
         // ---- model against the single-stepped instance B (a defect of Tick/Send/Flush shows here)
-        {
+        if (!no_sink) {
             size_t n = std::min(B.log.size(), M.frames.size());
             for (; cmp_bm < n; ++cmp_bm) {
                 if (B.log[cmp_bm].at != M.frames[cmp_bm].at)
@@ -163,7 +169,7 @@ void run_direct(Ctx& ctx, u64 c, unsigned ops_per_history) {
         if (!!B.dev.GetTransmitEnable() != M.enabled)
             return fail("model:enable:" + opname, "enable readback differs");
         // ---- twin: Skip(k) instance against k x Tick() instance (B agrees with the model: a difference is Skip's)
-        if (A.log.size() != B.log.size())
+        if (!no_sink && A.log.size() != B.log.size())
             return fail("twin:frame-count:" + opname, "Skip(k) instance and k x Tick() instance emitted a different number of frames");
         for (; cmp_ab < A.log.size(); ++cmp_ab)
             if (A.log[cmp_ab].l != B.log[cmp_ab].l || A.log[cmp_ab].r != B.log[cmp_ab].r)
@@ -415,6 +421,81 @@ void run_direct(Ctx& ctx, u64 c, unsigned ops_per_history) {
             check_all();
         }
         ctx.count("drains");
+    }
+
+    // ---- finale: ONE fast-forward across 2^32 cycles and beyond. Only possible while there is no horizon (queue empty),
+    // and only the fast-forwarding instance can get there: the oracle is the statement's arithmetic (one frame per period
+    // of enabled cycles, frame clock = enabled cycles modulo the period), then the phase is confirmed by single cycles.
+    if (!bad && !no_sink && period >= 4096 && g.chance(1, 2)) {
+        RunResult rr = Classify([&] {
+            A.dev.SetTransmitFlush(1);
+            A.dev.SetTransmitFlush(0);
+            if (g.chance(3, 4))
+                A.dev.SetTransmitEnable(1);
+        });
+        const bool en = A.dev.GetTransmitEnable() != 0;
+        if (rr.outcome == OK && A.dev.GetMaxSkip() == Inf) {
+            // learn A's frame clock: single cycles until the next frame (enabled) - that cycle has phase 0 afterwards
+            u32 phase = 0;
+            if (en) {
+                size_t f0 = A.log.size();
+                for (u32 k = 0; k <= period && A.log.size() == f0; ++k) {
+                    ++now;
+                    A.ct.Tick();
+                }
+            }
+            // a few cycles into the period
+            u32 into = (u32)g.below(std::min<u32>(period, 600));
+            for (u32 k = 0; k < into; ++k) {
+                ++now;
+                A.ct.Tick();
+            }
+            phase = en ? into : 0;
+            static const u64 bases[] = {1ull << 32, 1ull << 32, 1ull << 33, 3ull << 32};
+            u64 base = g.pick(bases);
+            s64 delta;
+            switch (g.below(6)) {
+            case 0: delta = -1; break;
+            case 1: delta = 0; break;
+            case 2: delta = 1; break;
+            case 3: delta = (s64)period - 1; break;
+            case 4: delta = (s64)g.below(period); break;
+            default: delta = (s64)g.bits(31); break;
+            }
+            u64 k = g.chance(1, 8) ? 0xFFFFFFFFull : base - phase + (u64)delta;
+            size_t f0 = A.log.size(), i0 = A.irq_at.size();
+            u64 got = 0;
+            log(fmt("huge skip %" PRIu64 " (enabled=%d phase=%u)", k, (int)en, phase));
+            rr = Classify([&] { got = A.ct.Skip(k); });
+            now += got;
+            u64 want_frames = en ? (phase + k) / period : 0;
+            u32 want_phase = en ? (u32)((phase + k) % period) : 0;
+            ctx.count("huge_skips");
+            ctx.count("huge_skip_frames_expected", want_frames);
+            ctx.seen("nt", fmt("huge-skip:en=%d:p=%s", (int)en, pclass(period)));
+            if (rr.outcome != OK)
+                fail("huge-skip:assert", "CoreTiming::Skip raised " + rr.what);
+            else if (got != k)
+                fail("huge-skip:distance", fmt("Skip(%" PRIu64 ") without a horizon advanced %" PRIu64, k, got));
+            else if (A.log.size() - f0 != want_frames)
+                fail("huge-skip:frame-count", fmt("Skip(%" PRIu64 ") from frame-clock phase %u with period %u emitted %zu frames, one per period is %" PRIu64,
+                                                  k, phase, period, A.log.size() - f0, want_frames));
+            else if (A.irq_at.size() != i0)
+                fail("huge-skip:irq", "empty interrupt raised although the queue was empty all along");
+            else if (en) {
+                // the next frame must come exactly period - want_phase single cycles later
+                size_t f1 = A.log.size();
+                u32 n = 0;
+                while (n <= period && A.log.size() == f1) {
+                    ++now;
+                    A.ct.Tick();
+                    ++n;
+                }
+                if (n != period - want_phase)
+                    fail("huge-skip:phase", fmt("after Skip(%" PRIu64 ") the next frame came after %u single cycles, the frame clock says %u", k, n,
+                                                period - want_phase));
+            }
+        }
     }
 
     ctx.count("cases");
